@@ -117,8 +117,7 @@ theorem cpToComplex_div (a b : CP ℝ) : cpToComplex (a / b) = cpToComplex a / c
 
 theorem cpToComplex_divK (a : CP ℝ) (x : ℝ) : cpToComplex (CP.divK a x) = cpToComplex a / (x : ℂ) := by
   apply Complex.ext <;>
-    simp [cpToComplex, CP.divK_re, CP.divK_im, Complex.div_re, Complex.div_im, Complex.normSq_apply] <;>
-    by_cases hx : x = 0 <;> simp [hx] <;> field_simp
+    simp [cpToComplex, CP.divK_re, CP.divK_im, Complex.div_ofReal_re, Complex.div_ofReal_im]
 
 /-- `CP.ik kr ki` is `i k` with `k = kr + i ki` -/
 theorem cpToComplex_ik (kr ki : ℝ) : cpToComplex (CP.ik kr ki) = Complex.I * (⟨kr, ki⟩ : ℂ) := by
